@@ -552,7 +552,46 @@ impl Engine for Conc {
         }
         let shared_container = rng.chance(1, 3);
         let mut tasks = Vec::new();
-        for _ in 0..nt {
+        // a readers-versus-writers template (directed): one task keeps reading one side of a node
+        // while others change the OTHER side of the same node, so the node's lock is busy although
+        // what is read cannot change
+        let template = directed && n >= 2 && rng.chance(1, 8);
+        if template {
+            let u = rng.below(n);
+            let read_in = rng.coin();
+            let mut reads = Vec::new();
+            for _ in 0..rng.range(1, 3) {
+                reads.push(match (read_in, rng.below(5)) {
+                    (true, 0) => Op::InDeg { u },
+                    (true, 1) => Op::IsRoot { u },
+                    (true, 2) => Op::FindIn { u, k: rng.below(n) },
+                    (false, 0) => Op::OutDeg { u },
+                    (false, 1) => Op::IsLeaf { u },
+                    (false, 2) => Op::IsConnected { u, k: rng.below(n) },
+                    (_, 3) => Op::Snapshot { u },
+                    _ => Op::SnapshotVia { u, style: rng.below(3) as u8 },
+                });
+            }
+            tasks.push(reads);
+            for _ in 1..nt {
+                let mut w = Vec::new();
+                for _ in 0..rng.range(1, 2) {
+                    let x = rng.below(n);
+                    next_edge += 1;
+                    // writers touch only the side that is not read
+                    w.push(match (read_in, rng.below(3)) {
+                        (true, 0) => Op::Connect { u, v: x, e: next_edge, h: Prov::Own },
+                        (true, 1) => Op::TryConnect { u, v: x, e: next_edge, h: Prov::Own },
+                        (true, _) => Op::Disconnect { u, k: x, h: Prov::Own },
+                        (false, 0) => Op::Connect { u: x, v: u, e: next_edge, h: Prov::Own },
+                        (false, 1) => Op::TryConnect { u: x, v: u, e: next_edge, h: Prov::Own },
+                        (false, _) => Op::Disconnect { u: x, k: u, h: Prov::Own },
+                    });
+                }
+                tasks.push(w);
+            }
+        }
+        for _ in 0..(if template { 0 } else { nt }) {
             let k = rng.range(1, max_ops);
             let mut script = Vec::new();
             for _ in 0..k {
@@ -594,7 +633,7 @@ impl Engine for Conc {
             policy: Policy {
                 kind,
                 writer_pref: rng.chance(2, 3),
-                preempt_in_cs: rng.chance(1, 3),
+                preempt_in_cs: template || rng.chance(1, 3),
                 preempt_at_release: rng.chance(1, 4),
             },
             sched_seed: rng.next_u64(),
